@@ -84,9 +84,9 @@ BaseFootprint(op) ==
     [] op = "Subset" ->
          << R("scalars"), R("outl"), R("cmap"), R("gdef"), R("gsub"), R("gpos") >> \o FDSel \o Result
     [] op = "Clone"          -> << R("scalars") >> \o Result
-    [] op = "FontBBox"       -> << R("scalars"), R("outl") >>
+    [] op = "FontBBox"       -> << R("scalars"), R("outl") >> \o FDSel
     [] op = "Widths"         -> << R("outl") >> \o Result
-    [] op = "WidthsPDF"      -> << R("scalars"), R("outl") >> \o Result
+    [] op = "WidthsPDF"      -> << R("scalars"), R("outl") >> \o FDSel \o Result
     [] op = "WidthsMapPDF"   -> << R("scalars"), R("outl") >> \o Result
     [] op = "GlyphWidths"    -> << R("scalars"), R("outl") >> \o FDSel
     [] op = "GlyphBBoxes"    -> << R("outl") >> \o Result
